@@ -63,6 +63,12 @@ def tasks(tier):
                    deadline=dl, durs=[0, 1], timeline=True, operation="opname", max_unknown=None,
                    strat_menu=[1])
         out.append({"family": "stream-slow-handler", "cfg": cfg, "entry": e, "bound": bound + 1})
+    # an attempt fails inside its on_attempt_start hook: the i-th retry event still carries
+    # attempt=i on every sink
+    for idx, e in itertools.product([0, 1, 2], RETRY_ENTRIES + POLICY_ENTRIES[:2]):
+        cfg = dict(M=4, alphabet=["ok", "x:T", "r:T"], attempt_hooks="call", max_unknown=None,
+                   timeline=True, faults=[("astart", idx, "RuntimeError")], strat_menu=[1])
+        out.append({"family": "stream-start-hook-fault", "cfg": cfg, "entry": e, "bound": 0})
     # only one of the sinks attached (the timeline must not depend on a metric hook)
     for metric, log in [(False, True), (True, False), (False, False)]:
         cfg = dict(M=3, alphabet=ALPHA, abort=True, handler="call", timeline=True, metric=metric,
@@ -96,7 +102,22 @@ def _tags_of_log(fields):
     return att, sl, tuple(sorted(d.items()))
 
 
+def monitor_numbering(w, cfg):
+    v = []
+    for call in split_calls(w.trace):
+        for sink in ("metric", "log"):
+            nums = []
+            for r in call.records:
+                if r[0] == sink and r[1] == "retry":
+                    nums.append(r[2] if sink == "metric" else dict(r[2]).get("attempt"))
+            if nums != list(range(1, len(nums) + 1)):
+                v.append(("c14.retry-numbering", f"{sink} sink: retry events numbered {nums}"))
+    return v
+
+
 def monitor(w, cfg):
+    if any(f[0] == "astart" for f in cfg["faults"] or ()):
+        return monitor_numbering(w, cfg)
     v = []
     for nt in getattr(w, "nested_traces", ()):
         v.extend(_breaker_events(nt, cfg))
